@@ -192,6 +192,8 @@ type userErr struct{ code int }
 func (e userErr) Error() string { return fmt.Sprintf("user error %d", e.code) }
 
 type engine struct {
+	lastCtl    workflow.RunStateController
+	lastCtlRun int
 	c       *ecfg
 	s       *sim
 	wfs     map[int]*workflow.Workflow[Obj, st]
@@ -591,13 +593,24 @@ func (e *engine) doOp(op string) {
 		api(err)
 	case "cb":
 		api(e.wfs[1].Callback(ctx, "f"+f[1], st(atoi(f[2])), nil))
-	case "ct":
-		rec, err := (simStore{s}).Lookup(ctx, s.runID(atoi(f[1])))
-		if err != nil {
-			api(err)
-			return
+	case "ct", "ctr":
+		// ctr: the RunStateController of the previous ct / ctr on this run is used again (no new lookup)
+		var c workflow.RunStateController
+		if f[0] == "ctr" && e.lastCtl != nil && e.lastCtlRun == atoi(f[1]) {
+			c = e.lastCtl
+			// the model looks the run up again (same answer: nothing was written in between); keep the traces aligned
+			id := s.runID(atoi(f[1]))
+			s.trace = append(s.trace, (simStore{s}).lookupTok("LK", s.runN(id), dOk, s.find(id)))
+		} else {
+			rec, err := (simStore{s}).Lookup(ctx, s.runID(atoi(f[1])))
+			if err != nil {
+				api(err)
+				return
+			}
+			c = workflow.NewRunStateController((simStore{s}).Store, rec)
 		}
-		c := workflow.NewRunStateController((simStore{s}).Store, rec)
+		e.lastCtl, e.lastCtlRun = c, atoi(f[1])
+		var err error
 		switch atoi(f[2]) {
 		case 0:
 			err = c.Pause(ctx, "api")
